@@ -55,6 +55,9 @@ def cases(tier, seed):
             for seqm in itertools.product(range(len(masks)), repeat=n):
                 for shots in (7,) if n == 3 else (1, 7):
                     yield {"backend": be, "noise": "SPAM", "n": n, "script": [list(masks[i]) for i in seqm], "shots": shots}
+                if n == 2:
+                    # the same with a user-supplied interaction matrix (one object shared by all trajectories)
+                    yield {"backend": be, "noise": "SPAM", "n": n, "script": [list(masks[i]) for i in seqm], "shots": 1, "custom_matrix": True}
         # many trajectories (more than any internal batching / folding size such as 32): only cheap shot-to-shot noise
         yield {"backend": be, "noise": "amplitude", "n": 33, "script": [[-1.5, 0.0, 2.0][k % 3] * (1 + k / 40) for k in range(33)], "shots": 1}
         for n in ns:
@@ -110,6 +113,10 @@ def run_case(case):
         script = {"normal": [[z * 0.5, -z, 0.3 * z] for z in case["script"] for _ in range(2)]}
     obs = [mod.Occupation(evaluation_times=ev), mod.CorrelationMatrix(evaluation_times=[1.0]), mod.Energy(evaluation_times=ev)] + ([mod.BitStrings(evaluation_times=[1.0], num_shots=shots)] if shots else [])
     kw = {"noise_model": nm} if nm is not None else {}
+    if case.get("custom_matrix"):
+        U = np.full((natoms, natoms), 9.0)
+        np.fill_diagonal(U, 0.0)
+        kw["interaction_matrix"] = U.tolist()
     backend_cls = sv.SVBackend if be == "sv" else m.MPSBackend
     captured = []
     orig = backend_cls.__dict__["_run_from_sequence_data"]
@@ -137,6 +144,34 @@ def run_case(case):
         return result(False, sig=f"raises|{be}|{noise}|{type(e).__name__}", msg=f"{label}: {type(e).__name__}: {str(e)[:300]}", outcome="raise")
     finally:
         backend_cls._run_from_sequence_data = orig
+    if case.get("custom_matrix") and noise == "SPAM" and len(captured) == n:
+        # every trajectory on its own (fresh run, same mask) must give what it gave inside the multi-trajectory run
+        for k, mk in enumerate(case["script"]):
+            solo = []
+
+            def rec2(sequence_data, config, _solo=solo):
+                r = orig.__func__(sequence_data, config)
+                _solo.append(r)
+                return r
+
+            try:
+                backend_cls._run_from_sequence_data = staticmethod(rec2)
+                with contextlib.redirect_stdout(io.StringIO()), seams.pulser_np_random(uniform=[seams.bad_mask_uniform(mk)]):
+                    if be == "sv":
+                        sv.SVBackend(seq, config=sv.SVConfig(dt=10, observables=obs, n_trajectories=1, log_level=logging.CRITICAL, gpu=False, **kw)).run()
+                    else:
+                        with seams.module_random(impl_mod, seams.ScriptedRandom(default_uniform=0.35, default_choice=0)):
+                            m.MPSBackend(seq, config=m.MPSConfig(dt=10, precision=1e-8, observables=obs, n_trajectories=1, log_level=logging.CRITICAL, num_gpus_to_use=0, **kw)).run()
+            except Exception:
+                solo = []
+            finally:
+                backend_cls._run_from_sequence_data = orig
+            # trajectories are grouped by mask inside the run: find the captured one with this mask through its occupation pattern
+            if solo:
+                o_solo = np.real(runner.to_np(runner.get_at(solo[0], "occupation", 1.0))).astype(float)
+                cands = [np.real(runner.to_np(runner.get_at(c, "occupation", 1.0))).astype(float) for c in captured]
+                if min(np.abs(c - o_solo).max() for c in cands) > 1e-9:
+                    return result(False, sig=f"trajectory-depends-on-others|{be}", msg=f"{label}: the trajectory with bad-atom mask {mk} gives occupation {np.round(o_solo, 6).tolist()} when run alone, but no trajectory of the multi-trajectory run does: {[np.round(c, 6).tolist() for c in cands]}", outcome="leak")
     if len(captured) != n:
         return result(False, sig=f"count|{be}|{noise}", msg=f"{label}: {len(captured)} simulations ran for n_trajectories={n}", outcome="count")
     ids = tuple(seq.register.qubit_ids)
